@@ -134,6 +134,8 @@ def edit_tokens(ed):
         return ["addwavs", str(len(ed["paths"]))] + [hx(p) for p in ed["paths"]]
     if ed["op"] == "setuprp":
         return ["setuprp", str(len(ed["cuwps"]))] + [x for c in ed["cuwps"] for x in val_tokens(c)[1:]]
+    if ed["op"] == "setmrgn":
+        return ["setmrgn", str(len(ed["locs"]))] + [x for l in ed["locs"] for x in val_tokens(l)[1:]]
     if ed["op"] == "reload":
         return ["reload"]
     raise ValueError(ed["op"])
@@ -288,6 +290,10 @@ def real_run(data, history, classes):
                 from richchk.model.richchk.uprp.rich_uprp_section import RichUprpSection
 
                 rich = RichChkEditor().replace_chk_section(RichUprpSection(_cuwp_slots=[real.val(c, None) for c in ed["cuwps"]]), rich)
+            elif ed["op"] == "setmrgn":
+                from richchk.model.richchk.mrgn.rich_mrgn_section import RichMrgnSection
+
+                rich = RichChkEditor().replace_chk_section(RichMrgnSection(_locations=[real.val(l, None) for l in ed["locs"]]), rich)
             elif ed["op"] == "reload":
                 rich = RichChkIo().decode_chk(ChkIo().decode_chk_binary_data(ChkIo().encode_chk_to_bytes(RichChkIo().encode_chk(rich))))
         out = ChkIo().encode_chk_to_bytes(RichChkIo().encode_chk(rich))
@@ -362,8 +368,11 @@ class Author:
                 return o
         if self.fresh["loc"] and (self.mode == "single" or r < 0.8):
             return rng.choice(self.fresh["loc"])   # a new location shared among several entries / triggers
+        if len(self.view["locs"]) + len(self.all_fresh.get("loc", [])) >= 255 and not self.allow_exhaust:
+            return self.existing_loc()          # the location table is full: a new one cannot be placed
         o = Obj(k="loc", x1=rng.randrange(0, 8192), y1=rng.randrange(0, 8192), x2=rng.randrange(0, 8192), y2=rng.randrange(0, 8192), name=self.rstr(), idx=None,
                 el=[rng.random() < 0.7 for _ in range(6)])
+        self.all_fresh.setdefault("loc", []).append(o)
         self.fresh["loc"].append(o)
         return o
 
@@ -640,6 +649,8 @@ def check_c04(sc, out_bytes, spec, rf, widths, out, base_info):
             raw_t += refchk.fields_of(refchk.layouts_of(spec)[b"TRIG"], p)["triggers"]
     raw_t = raw_t[-len(trigs):] if trigs else []
     new_switch_slots = {}
+    new_loc_slots = {}
+    author_tables = {"a": {r["id"]: r for r in spec["actions"]}, "c": {r["id"]: r for r in spec["conditions"]}}
     for ti, (t, g, rt) in enumerate(zip(trigs, got, raw_t)):
         if g["players"] != [i in t["players"] for i in range(27)]:
             out.violations.append(dict(base_info, oracle="authored trigger runs for exactly the authored players", key=None, trigger=ti, got=g["players"], authored=t["players"]))
@@ -660,6 +671,12 @@ def check_c04(sc, out_bytes, spec, rf, widths, out, base_info):
                     out.violations.append(dict(base_info, oracle="every authored entry is in the saved trigger", key=None, trigger=ti, part=part, entry=k, type=e["id"]))
                     break
                 gd = dict(g[part][k][1]) if g[part][k][0] == "rich" else {}
+                srow = (author_tables["a"] if kind == "a" else author_tables["c"]).get(e["id"])
+                if srow:
+                    fmap = dict(srow["args"])
+                    for a, v in e["args"]:
+                        if v["k"] == "loc" and v["idx"] is None and a in fmap:
+                            new_loc_slots.setdefault(v["uid"], set()).add(recs[k][fmap[a]])
                 for a, v in e["args"]:
                     if v["k"] == "sw" and v["idx"] is None and a in gd:
                         try:
@@ -685,6 +702,9 @@ def check_c04(sc, out_bytes, spec, rf, widths, out, base_info):
             if sl in taken:
                 out.violations.append(dict(base_info, oracle="distinct authored switches get distinct slots", key=None, slot=sl))
             taken[sl] = uid
+        for uid, slots in new_loc_slots.items():
+            if len(slots) != 1:
+                out.violations.append(dict(base_info, oracle="every reference to one authored location resolves to one slot", key=None, slots=sorted(slots)))
     # unit settings
     L = refchk.layouts_of(spec)
     secs = dict((n, p) for n, p in reversed(sections_of(out_bytes)))
@@ -813,10 +833,17 @@ def base_maps(rng, spec, tier):
     for i in range({"quick": 6, "thorough": 40}[tier]):
         data, _ = gen.gen("editor" if i % 2 == 0 else "valid", [None, None, "mrgn64", "uprp-prefilled"][i % 4] if i % 2 == 0 else None)
         maps.append(("gen:%d" % i, data))
+    data, _ = gen.gen("editor", "mrgn-full")
+    maps.append(("gen:mrgn-full", data))
     return maps
 
 
-def special_histories(author, rng):
+def special_histories(author, rng, have=None):
+    have = have or {"unis": 0, "wav": False}
+    return _special_histories(author, rng, have)
+
+
+def _special_histories(author, rng, have):
     """targeted normal-looking histories: (what, history, mode, may_raise)"""
     out = []
     # many new named switches in one save
@@ -839,6 +866,50 @@ def special_histories(author, rng):
             e["args"] = [(a, (cu if v["k"] == "cuwp" else v)) for a, v in e["args"]]
             acts.append(e)
         out.append(("equal unit-property sets carrying different free slot numbers", [{"op": "addtrigs", "trigs": [{"conds": [], "acts": acts, "players": [3]}]}], "multi", True))
+    # one new location and one new unnamed switch shared by triggers added in separate editor calls, with another
+    # section replaced in between: still ONE location slot and ONE switch number
+    shared_loc = Obj(k="loc", x1=96, y1=128, x2=320, y2=352, name=b"shared area", idx=None, el=[True] * 6)
+    shared_sw = Obj(k="sw", name=None, idx=None)
+
+    def use_shared(tag):
+        acts = []
+        e = author.entry("a", 28)      # minimap ping at a location
+        e["args"] = [(a, (shared_loc if v["k"] == "loc" else v)) for a, v in e["args"]]
+        acts.append(e)
+        e = author.entry("a", 13)      # set switch
+        e["args"] = [(a, (shared_sw if v["k"] == "sw" else v)) for a, v in e["args"]]
+        acts.append(e)
+        return {"conds": [], "acts": acts, "players": [tag]}
+    between = []
+    if have["unis"]:
+        between.append({"op": "upsert", "unit": author.unit(have["unis"])})
+    if have["wav"]:
+        between.append({"op": "addwavs", "paths": [b"staredit\\wav\\between.wav"]})
+    out.append(("objects shared by triggers added in separate calls", [{"op": "addtrigs", "trigs": [use_shared(1)]}] + between + [{"op": "addtrigs", "trigs": [use_shared(2)]}], "single", len(author.view["locs"]) >= 255))
+    # a new location while all 255 slots are taken: the save raises (never a reference to "no location")
+    if len(author.view["locs"]) >= 255:
+        nl = Obj(k="loc", x1=8, y1=8, x2=72, y2=72, name=b"one too many", idx=None, el=[True] * 6)
+        e = author.entry("a", 10)
+        e["args"] = [(a, (nl if v["k"] == "loc" else v)) for a, v in e["args"]]
+        out.append(("a new location on a full location table (in an action)", [{"op": "addtrigs", "trigs": [{"conds": [], "acts": [e], "players": [6]}]}], "single", True))
+    # a switch the map NAMES, referred to by its number alone: the name stays
+    named_slots = sorted(author.view["switches"])
+    if named_slots:
+        k = rng.choice(named_slots)
+        e = author.entry("a", 13)
+        byno = Obj(k="sw", name=None, idx=k)
+        e["args"] = [(a, (byno if v["k"] == "sw" else v)) for a, v in e["args"]]
+        out.append(("a named switch referred to by number only", [{"op": "addtrigs", "trigs": [{"conds": [], "acts": [e], "players": [4]}]}], "single", False))
+    # a copy of a stored unit-property set carrying a FREE slot number: existing references stay on their slot
+    pool2 = author._existing_cuwps()
+    used2 = {c["idx"] for c in pool2}
+    free2 = [i for i in range(1, 65) if i not in used2]
+    if pool2 and free2:
+        cp = Obj(**{k2: (list(v2) if isinstance(v2, list) else v2) for k2, v2 in pool2[0].items()})
+        cp["idx"] = free2[-1]
+        e = author.entry("a", 11)
+        e["args"] = [(a, (cp if v["k"] == "cuwp" else v)) for a, v in e["args"]]
+        out.append(("a copy of a stored unit-property set carrying a free slot number", [{"op": "addtrigs", "trigs": [{"conds": [], "acts": [e], "players": [5]}]}], "single", True))
     # the same trigger added three times (hyper triggers): all three must be in the file
     t = author.trigger(nc=1, na=3, raw_p=0)
     out.append(("three identical triggers in one call", [{"op": "addtrigs", "trigs": [t, t, t]}], "single", False))
@@ -898,6 +969,8 @@ def describe(sc):
             ops.append("upsert(unit %d)" % ed["unit"]["unit"])
         elif ed["op"] == "addwavs":
             ops.append("addwavs(%d)" % len(ed["paths"]))
+        elif ed["op"] == "setmrgn":
+            ops.append("setmrgn(%d locations, indices .. %s)" % (len(ed["locs"]), [l["idx"] for l in ed["locs"]][-2:]))
         elif ed["op"] == "setuprp":
             ops.append("setuprp(%d slots, indices %s)" % (len(ed["cuwps"]), [c["idx"] for c in ed["cuwps"]][-3:]))
         else:
@@ -956,6 +1029,21 @@ def degenerate_histories(author, rng):
         e["args"] = [(a, (same if v["k"] == "cuwp" else v)) for a, v in e["args"]]
         out.append(("hand-built UPRP section with a slot at index %d, referenced by an equal index-less set" % bad,
                     [{"op": "setuprp", "cuwps": stored + [odd]}, {"op": "addtrigs", "trigs": [{"conds": [], "acts": [e], "players": [0]}]}]))
+    # a hand-built location section numbering its own locations past the table (256..), referenced by triggers
+    stored_locs = []
+    recs = refchk.fields_of(author.L[b"MRGN"], author.chunks[b"MRGN"])["records"] if b"MRGN" in author.chunks else []
+    for sidx in sorted(author.view["locs"])[:6]:
+        r = recs[sidx - 1]
+        nm = refchk.resolve_string(author.chunks[b"STR "], 2, r["_string_id"]) if r["_string_id"] else None
+        stored_locs.append(Obj(k="loc", x1=r["_left_x1"], y1=r["_top_y1"], x2=r["_right_x2"], y2=r["_bottom_y2"], name=nm, idx=sidx, el=[not (r["_elevation_flags"] >> i) & 1 for i in range(6)]))
+    grid = [Obj(k="loc", x1=32 * i, y1=64, x2=32 * i + 32, y2=96, name=None, idx=k, el=[True] * 6) for i, k in enumerate((254, 255, 256, 300))]
+    acts = []
+    for g in grid:
+        e = author.entry("a", 28)
+        e["args"] = [(a, (g if v["k"] == "loc" else v)) for a, v in e["args"]]
+        acts.append(e)
+    out.append(("hand-built MRGN section numbering locations past 255, referenced by triggers",
+                [{"op": "setmrgn", "locs": stored_locs + grid}, {"op": "addtrigs", "trigs": [{"conds": [], "acts": acts, "players": [0]}]}]))
     # non-7-bit authored text
     t = author.trigger(nc=0, na=0)
     t["acts"] = [{"k": "rich", "id": 9, "args": [("_text", Obj(k="str", s=b"caf\xe9"))], "flags": [False] * 5}]
@@ -990,10 +1078,10 @@ def run(prop, tier, seed):
             mode = "single" if j % 3 != 2 else "multi"
             hist = gen_history(author, rng, mode, have)
             scenarios.append({"tag": tag, "base": data, "base_out": base_out, "history": hist, "mode": mode, "kind": "normal"})
-        if prop in ("C04", "C07", "C11"):
+        if prop in ("C04", "C07", "C11", "C10"):
             Author._existing = {}
             author = Author(rng, spec, classes, data)
-            for what, hist, mode, may_raise in special_histories(author, rng):
+            for what, hist, mode, may_raise in special_histories(author, rng, have):
                 scenarios.append({"tag": tag, "base": data, "base_out": base_out, "history": hist, "mode": mode, "kind": "special:" + what, "may_raise": may_raise})
         if prop == "C11" and (tier == "thorough" or nbase in (1, 3, 4)):
             Author._existing = {}
@@ -1029,6 +1117,12 @@ def run(prop, tier, seed):
         if prop == "C04" and not sc["kind"].startswith("degenerate"):
             check_c04(sc, res, spec, rf, widths, out, base_info)
             reload_equal(sc, res, authored, out, base_info)
+        if prop == "C10" and not sc["kind"].startswith("degenerate"):
+            # whatever edits are made elsewhere: unmodelled sections of the unedited save sit at the same index, identical
+            from rich_h import passthrough_problems
+
+            for d, key in passthrough_problems(sc["base_out"], res, spec):
+                out.violations.append(dict(base_info, oracle="unmodelled content passes through untouched and in place, whatever edits are made elsewhere", diff=d, key=key))
         if prop == "C07" and not sc["kind"].startswith("degenerate"):
             check_c07(sc, sc["base_out"], res, spec, out, base_info)
         if prop == "C11":
@@ -1036,6 +1130,29 @@ def run(prop, tier, seed):
             for p in [p for p in refchk.struct_valid(res, spec) if p not in before][:3]:
                 out.violations.append(dict(base_info, oracle="every emitted CHK is structurally valid", problem=p, key=None))
     return out
+
+
+def equalish(a, g):
+    """authored object vs loaded object: equal as the library understands it, ignoring the slot numbers the
+    save allocated (a switch that carries a number is that switch whatever its name says)"""
+    if type(a).__name__ == "RichSwitch" and type(g).__name__ == "RichSwitch":
+        if a.index is not None:
+            return a.index == g.index
+        return normalise(a.custom_name) == normalise(g.custom_name)
+    if dataclasses.is_dataclass(a) and not isinstance(a, type):
+        if type(a) is not type(g) and not (type(a).__name__.endswith("String") and type(g).__name__.endswith("String")):
+            return False
+        if type(a).__name__.endswith("String"):
+            return normalise(a) == normalise(g) or (a.value == g.value)
+        for f in dataclasses.fields(a):
+            if f.name in ("_index", "_log"):
+                continue
+            if not equalish(getattr(a, f.name), getattr(g, f.name)):
+                return False
+        return True
+    if isinstance(a, (list, tuple)):
+        return isinstance(g, (list, tuple)) and len(a) == len(g) and all(equalish(x, y) for x, y in zip(a, g))
+    return normalise(a) == normalise(g)
 
 
 def normalise(o):
@@ -1073,13 +1190,12 @@ def reload_equal(sc, res, authored, out, base_info):
     trigs = [t for s in rich.chk_sections if isinstance(s, RichTrigSection) for t in s.triggers]
     got = trigs[-len(authored):] if authored else []
     for i, (a, g) in enumerate(zip(authored, got)):
-        na, ng = normalise(a), normalise(g)
-        if na != ng:
+        if not equalish(a, g):
             # locate the first differing entry
             where = None
             for part in ("_conditions", "_actions"):
                 for k, (x, y) in enumerate(zip(getattr(a, part), getattr(g, part))):
-                    if normalise(x) != normalise(y):
+                    if not equalish(x, y):
                         where = "%s[%d]: authored %s, loaded %s" % (part, k, str(normalise(x))[:300], str(normalise(y))[:300])
                         break
                 if where:
